@@ -525,7 +525,7 @@ func (s *Sim) RunCall(cc grpc.ClientConnInterface, r *CallRec) {
 		ctx = metadata.NewOutgoingContext(ctx, md)
 	}
 	var cancel context.CancelFunc
-	if spec.Timeout != 0 {
+	if spec.Timeout > 0 {
 		ctx, cancel = e.WithTimeout(ctx, spec.Timeout)
 	} else {
 		ctx, cancel = context.WithCancel(ctx)
